@@ -12,7 +12,7 @@ import corpus
 
 def tree_key(tier):
     h = hashlib.sha1()
-    pats = ["/repo/riscv_analysis/src/**/*.rs", "/repo/riscv_analysis/Cargo.toml", "/repo/Cargo.lock",
+    pats = [REPO + "/riscv_analysis/src/**/*.rs", REPO + "/riscv_analysis/Cargo.toml", REPO + "/Cargo.lock",
             os.path.join(SPEC, "*"), os.path.join(HARNESS, "src", "*.rs"), os.path.join(VERIF, "lib", "**", "*.py")]
     for p in pats:
         for f in sorted(glob.glob(p, recursive=True)):
